@@ -129,6 +129,24 @@ def conversions(rep, known):
     cases = [('snapshots', ['x 1 2'], 'node'), ('snapshots', ['0 y 2'], 'node'), ('snapshots', ['0 1 z'], 'timestamp'), ('snapshots', ['0 1 2 w'], 'timestamp'),
              ('snapshots', ['0 1 1', 'x 1 2'], 'node'), ('interactions', ['x 1 + 2'], 'node'), ('interactions', ['0 1 + z'], 'timestamp'),
              ('interactions', ['0 1 + 1', '0 1 - q'], 'timestamp'), ('snapshots', ['0 1 2.5'], 'timestamp'), ('snapshots', ['0.5 1 2'], 'node')]
+    import decimal
+    table = {'0': 0, '1': 1, '2': 2}
+    custom = [('lookup-table', table.__getitem__), ('decimal', decimal.Decimal)]
+    for cname, conv in custom:
+        for reader, lines, what in (('snapshots', ['0 1 2', '0 milan 2'], 'node'), ('interactions', ['0 1 + 1', 'pisa 1 + 2'], 'node'),
+                                    ('snapshots', ['0 1 x'], 'timestamp'), ('interactions', ['0 1 + x'], 'timestamp')):
+            fn = edgelist.parse_snapshots if reader == 'snapshots' else edgelist.parse_interactions
+            kw = {'nodetype': conv, 'timestamptype': int} if what == 'node' else {'nodetype': int, 'timestamptype': conv}
+            n += 1
+            try:
+                fn(lines, **kw)
+                viols.append(Violation(PROP, 'conversion', {'kind': 'unconvertible-field-accepted', 'field': what, 'reader': reader, 'converter': cname},
+                                       {'lines': lines, 'reader': reader}, {'lines': lines}))
+            except TypeError:
+                pass
+            except Exception as ex:
+                viols.append(Violation(PROP, 'conversion', {'kind': 'wrong-exception', 'field': what, 'reader': reader, 'exc': type(ex).__name__,
+                                                            'converter': cname}, {'lines': lines, 'reader': reader}, {'lines': lines, 'raised': repr(ex)[:200]}))
     for reader, lines, what in cases:
         for directed in (False, True):
             n += 1
@@ -260,7 +278,7 @@ def run(tier, seed):
         rep.add_violations([_v(j) for j in viols], known)
     ncv = conversions(rep, known)
     W = 8
-    for base_, step in ((0, 1), (100, 3), (-5, 2)):
+    for base_, step in ((0, 1), (100, 3), (-5, 2), (2 ** 60, 1)):
         t, viols = graphs.run_indexed(eval_compact, 2 ** W, {'W': W, 'base': base_, 'step': step})
         tot['compact_calls'] += t['calls']
         tot['compact_nontrivial'] += t['nontrivial']
